@@ -306,12 +306,16 @@ impl<'a> VisitMut for Rw<'a> {
                 *e = r;
             } else if let Some(fname) = self.maps.methodmap.get(&name) {
                 // R10: method -> prelude function
+                // value forms: `f` (receiver by value/autoref as written), `&mut f` / `& f` (receiver re-borrowed)
+                let (borrow, fname) = if let Some(x) = fname.strip_prefix("&mut ") { (2, x.trim().to_string()) }
+                    else if let Some(x) = fname.strip_prefix("& ") { (1, x.trim().to_string()) } else { (0, fname.clone()) };
                 let full = match &tf {
                     Some(tf) => format!("{}_{}", fname, mangle(tf)),
                     None => fname.clone(),
                 };
                 let f = Ident::new(&full, Span::call_site());
-                let recv = &m.receiver;
+                let recv0 = &m.receiver;
+                let recv: Expr = match borrow { 2 => parse_quote!(&mut #recv0), 1 => parse_quote!(& #recv0), _ => parse_quote!(#recv0) };
                 let args = &m.args;
                 let r: Expr = if args.is_empty() { parse_quote!(#f(#recv)) } else { parse_quote!(#f(#recv, #args)) };
                 self.logit("R10", line, norm(&e.to_token_stream()), norm(&r.to_token_stream()));
